@@ -241,3 +241,134 @@ kproof! {
     #[kani::stub(crate::bit_writer::BitWriter::flush_whole_bytes, crate::verif_common::stub_flush_whole_bytes)]
     fn k07c_dyn_header_rt() { dyn_header(8 + 16); }
 }
+
+// ---------------------------------------------------------------------------
+// K07e: postcondition of HuffmanOriginalEncoding::read with SYMBOLIC HLIT / HDIST / HCLEN: the code-length Huffman tree
+// and decode_symbol are replaced by their contracts (tree: Err or some tree; decode_symbol: Err or any u16, one bit-reader
+// tick per call), so that what is decided is read()'s own loop: the counts, the placement of the code-length code, the run
+// accounting and the final "exactly HLIT + HDIST entries" check that predict_ld_trees later asserts (C05) and that
+// write() relies on (C07).
+// ---------------------------------------------------------------------------
+pub fn contract_code_tree(_code_lengths: &[u8]) -> Result<Vec<i32>> {
+    if kani::any() { return err_exit_code(ExitCode::InvalidDeflate, ""); }
+    Ok(Vec::new())
+}
+pub static mut DS_CALLS: usize = 0x5EED_0000_0000_0061;
+pub static mut DS_MAX: usize = 0x5EED_0000_0000_0062;
+pub fn contract_decode_symbol<R: crate::bit_reader::ReadBits>(bit_reader: &mut R, _huffman_tree: &[i32]) -> Result<u16> {
+    let _tick = bit_reader.get(1)?; // consumes input like the real one (>= 1 bit per symbol)
+    unsafe { kani::assume(DS_CALLS < DS_MAX); DS_CALLS += 1; } // bound: at most DS_MAX run-length symbols per table
+    let s: u16 = kani::any();
+    kani::assume(s <= 19);
+    Ok(s)
+}
+fn dyn_header_post(hlit_field: u32, hdist_field: u32) {
+    const ITEMS: usize = 6;
+    // HLIT / HDIST scripted (concrete table size per instance), HCLEN, the code-length code and every item symbolic;
+    // read budget: 3 count fields + up to 19 code-length-code fields + ITEMS symbols with at most one extra field each
+    let mut script = [(0u32, 0u8); 24];
+    script[0] = (hlit_field, 5);
+    script[1] = (hdist_field, 5);
+    unsafe { DS_CALLS = 0; DS_MAX = ITEMS; }
+    let mut bits = ScriptBits { script, m: 2, val: [0; SB_N], cnt: [0; SB_N], n: 0, budget: 3 + 19 + 2 * ITEMS };
+    let r = HuffmanOriginalEncoding::read(&mut bits);
+    if let Ok(enc) = &r {
+        assert!(enc.num_literals == hlit_field as usize + 257, "HLIT");
+        assert!(enc.num_dist == hdist_field as usize + 1, "HDIST");
+        assert!(enc.num_code_lengths >= 4 && enc.num_code_lengths <= 19 && enc.num_code_lengths == bits.val[2] as usize + 4, "HCLEN");
+        let mut i = 0;
+        while i < 19 {
+            let s = crate::preflate_constants::TREE_CODE_ORDER_TABLE[i];
+            if i < enc.num_code_lengths { assert!(enc.code_lengths[s] as u32 == bits.val[3 + i], "code-length code entry misplaced"); }
+            else { assert!(enc.code_lengths[s] == 0, "code-length code entry beyond HCLEN is not zero"); }
+            i += 1;
+        }
+        assert!(enc.lengths.len() <= ITEMS);
+        let mut total = 0usize;
+        let mut i = 0;
+        while i < ITEMS {
+            if i < enc.lengths.len() {
+                let (t, v) = enc.lengths[i];
+                let ok = match t { TreeCodeType::Code => v <= 15, TreeCodeType::Repeat => v >= 3 && v <= 6, TreeCodeType::ZeroShort => v >= 3 && v <= 10, TreeCodeType::ZeroLong => v >= 11 && v <= 138 };
+                assert!(ok, "run-length item outside its RFC 1951 range");
+                total += if t == TreeCodeType::Code { 1 } else { v as usize };
+            }
+            i += 1;
+        }
+        assert!(total == enc.num_literals + enc.num_dist, "accepted a code length table that does not have exactly HLIT + HDIST entries");
+    }
+    kani::cover!(matches!(&r, Ok(e) if e.lengths.len() >= 3), "accepted");
+    kani::cover!(r.is_err() && bits.n >= 3 + 4 + 4, "rejected after reading items");
+    core::mem::forget(r);
+}
+macro_rules! k07e { ($name:ident, $hl:expr, $hd:expr) => {
+    kproof! {
+        #[kani::stub(crate::huffman_helper::calculate_huffman_code_tree, contract_code_tree)]
+        #[kani::stub(crate::huffman_helper::decode_symbol, contract_decode_symbol)]
+        fn $name() { dyn_header_post($hl, $hd); }
+    }
+} }
+k07e!(k07e_dyn_header_read_post_257_1, 0, 0);
+k07e!(k07e_dyn_header_read_post_286_30, 29, 29);
+k07e!(k07e_dyn_header_read_post_288_32, 31, 31);
+
+// ---------------------------------------------------------------------------
+// K03h: the code lengths a dynamic block's reader AND writer build their codes from (get_literal_distance_lengths)
+// equal the RFC 1951 §3.2.7 expansion of the run-length items, split at HLIT: nothing added, nothing re-ordered.
+// Structure concrete per shape (so every Vec has a concrete length), code values symbolic.
+// ---------------------------------------------------------------------------
+fn rfc_expand(items: &[(TreeCodeType, u8)], out: &mut [u8; 330]) -> usize {
+    let mut n = 0usize;
+    let mut prev = 0u8;
+    let mut i = 0;
+    while i < items.len() {
+        let (t, v) = items[i];
+        match t {
+            TreeCodeType::Code => { out[n] = v; prev = v; n += 1; }
+            TreeCodeType::Repeat => { let mut k = 0; while k < v { out[n] = prev; n += 1; k += 1; } }
+            _ => { let mut k = 0; while k < v { out[n] = 0; n += 1; k += 1; } }
+        }
+        i += 1;
+    }
+    n
+}
+fn dyn_lengths_shape(items: &[(TreeCodeType, u8)], hlit: usize, hdist: usize) {
+    let mut v: Vec<(TreeCodeType, u8)> = Vec::with_capacity(items.len());
+    let mut i = 0;
+    while i < items.len() { v.push(items[i]); i += 1; }
+    let enc = HuffmanOriginalEncoding { lengths: v, code_lengths: [0; 19], num_literals: hlit, num_dist: hdist, num_code_lengths: 19 };
+    let mut exp = [0u8; 330];
+    let n = rfc_expand(items, &mut exp);
+    assert!(n == hlit + hdist);
+    let (lit, dist) = enc.get_literal_distance_lengths();
+    assert!(lit.len() == hlit, "literal/length code has a different number of symbols than HLIT");
+    assert!(dist.len() == hdist, "distance code has a different number of symbols than HDIST");
+    // the first 250 literal lengths come from the two concrete zero runs; compare the symbolic tail and all distances
+    let mut i = 250;
+    while i < hlit { assert!(lit[i] == exp[i], "literal/length code length differs from the RFC 1951 expansion"); i += 1; }
+    assert!(lit[0] == 0 && lit[137] == 0 && lit[138] == 0 && lit[249] == 0);
+    let mut i = 0;
+    while i < hdist { assert!(dist[i] == exp[hlit + i], "distance code length differs from the RFC 1951 expansion"); i += 1; }
+    core::mem::forget(lit); core::mem::forget(dist); core::mem::forget(enc);
+}
+kproof! {
+    fn k03h_dyn_lengths_expand() {
+        let c: [u8; 10] = kani::any();
+        let mut i = 0; while i < 10 { kani::assume(c[i] <= 15); i += 1; }
+        let r: u8 = kani::any(); kani::assume(r >= 3 && r <= 6);
+        let z: u8 = kani::any(); kani::assume(z >= 3 && z <= 10);
+        use TreeCodeType::*;
+        // shape A: HLIT 257, HDIST 3: two zero runs (138 + 112), 7 explicit lengths 250..=256, three explicit distance lengths
+        dyn_lengths_shape(&[(ZeroLong, 138), (ZeroLong, 112), (Code, c[0]), (Code, c[1]), (Code, c[2]), (Code, c[3]), (Code, c[4]), (Code, c[5]), (Code, c[6]),
+                            (Code, c[7]), (Code, c[8]), (Code, c[9])], 257, 3);
+        kani::cover!(c[7] == 0 && c[8] == 1 && c[9] == 0, "distance code with a single one-bit symbol that is not symbol 0");
+        // shape B: a repeat (code 16) that crosses the literal/distance boundary, then a short zero run: HLIT 257, HDIST r - 1 + z
+        if r == 4 && z == 3 {
+            dyn_lengths_shape(&[(ZeroLong, 138), (ZeroLong, 112), (Code, c[0]), (Code, c[1]), (Code, c[2]), (Code, c[3]), (Code, c[4]), (Code, c[5]), (Repeat, 4), (ZeroShort, 3)], 257, 6);
+        }
+        if r == 6 && z == 10 {
+            dyn_lengths_shape(&[(ZeroLong, 138), (ZeroLong, 112), (Code, c[0]), (Code, c[1]), (Code, c[2]), (Code, c[3]), (Code, c[4]), (Code, c[5]), (Repeat, 6), (ZeroShort, 10)], 257, 15);
+        }
+        kani::cover!(r == 6 && z == 10, "long shape");
+    }
+}
